@@ -79,7 +79,17 @@ def parseParams (doc : Json) (j : Json) : List Param × Bool :=
 def parseView (doc : Json) (strict : Bool) : View × Bool :=
   let pathsJ := (doc.getObjVal? "paths").toOption
   let pathEntries := (objEntries doc "paths").filter fun (k, _) => k.startsWith "/"
-  let opsAndOk := pathEntries.flatMap fun (path, pi) =>
+  -- a path item that is a `$ref` to another path item of the document ("#/paths/~1x", JSON-pointer escapes ~1 = "/", ~0 = "~")
+  let derefItem (pi : Json) : Json :=
+    let r := getStr pi "$ref"
+    if r.startsWith "#/paths/" then
+      let key := ((r.drop 8).toString.replace "~1" "/").replace "~0" "~"
+      match pathEntries.find? (·.1 == key) with
+      | some (_, target) => target
+      | none => pi
+    else pi
+  let opsAndOk := pathEntries.flatMap fun (path, pi0) =>
+    let pi := derefItem pi0
     let (piParams, ok1) := parseParams doc pi
     methodsInOrder.filterMap fun m =>
       match (pi.getObjVal? m).toOption with
